@@ -404,3 +404,294 @@ func vH_C14_reentrant(data []byte, outer int, inner int, bufmode int) {
 	vAssert(p1 == p2, "C14.re.same-offset")
 	vAssert(h1.n == h2.n, "C14.re.same-calls")
 }
+
+// ---- C05 ---------------------------------------------------------------
+// kind: 0 uint64, 1 int64, 2 int32, 3 uint32, 4 int, 5 uint
+func vIntBounds(kind int) (allowNeg bool, maxPos, maxNeg string) {
+	switch kind {
+	case 0, 5:
+		return false, "18446744073709551615", ""
+	case 1, 4:
+		return true, "9223372036854775807", "9223372036854775808"
+	case 2:
+		return true, "2147483647", "2147483648"
+	}
+	return false, "4294967295", ""
+}
+
+// vReadIntKind calls the reader of the given kind; the value is returned as
+// (magnitude-preserving) int64 / uint64 bit pattern in a uint64.
+func vReadIntKind(kind int, data []byte) (uint64, int, error) {
+	switch kind {
+	case 0:
+		v, p, err := ReadUint64(data)
+		return v, p, err
+	case 1:
+		v, p, err := ReadInt64(data)
+		return uint64(v), p, err
+	case 2:
+		v, p, err := ReadInt32(data)
+		return uint64(int64(v)), p, err
+	case 3:
+		v, p, err := ReadUint32(data)
+		return uint64(v), p, err
+	case 4:
+		v, p, err := ReadInt(data)
+		return uint64(v), p, err
+	}
+	v, p, err := ReadUint(data)
+	return uint64(v), p, err
+}
+
+func vRefIntFits(kind int, data []byte) (fits bool, neg bool, ds, de int) {
+	allowNeg, maxPos, maxNeg := vIntBounds(kind)
+	neg, ds, de, ok := vRefIntLiteral(data, true)
+	if !ok {
+		return false, false, 0, 0
+	}
+	if neg && !allowNeg {
+		return false, false, 0, 0
+	}
+	if neg {
+		return vRefDigitsLE(data, ds, de, maxNeg), true, ds, de
+	}
+	return vRefDigitsLE(data, ds, de, maxPos), false, ds, de
+}
+
+func vH_C05(data []byte, kind int) {
+	val, p, err := vReadIntKind(kind, data)
+	fits, neg, ds, de := vRefIntFits(kind, data)
+	vReach("C05.compared")
+	vAssert((err == nil) == fits, "C05.success")
+	if fits && err == nil {
+		vReach("C05.value")
+		vAssert(p == de, "C05.offset")
+		mag := vRefDigitsValue(data, ds, de)
+		if neg {
+			vAssert(val == -mag, "C05.neg-value")
+		} else {
+			vAssert(val == mag, "C05.value")
+		}
+	}
+}
+
+// ---- C12 ---------------------------------------------------------------
+// kind as in C05; 6 bool; 7 float64 is handled by vH_C12_float; 8 string by vH_C12_string
+func vDecodeIntKind(kind int, data []byte, v0 uint64) (uint64, int, error) {
+	switch kind {
+	case 0:
+		v := v0
+		p, err := DecodeUint64(data, &v)
+		return v, p, err
+	case 1:
+		v := int64(v0)
+		p, err := DecodeInt64(data, &v)
+		return uint64(v), p, err
+	case 2:
+		v := int32(v0)
+		p, err := DecodeInt32(data, &v)
+		return uint64(int64(v)), p, err
+	case 3:
+		v := uint32(v0)
+		p, err := DecodeUint32(data, &v)
+		return uint64(v), p, err
+	case 4:
+		v := int(v0)
+		p, err := DecodeInt(data, &v)
+		return uint64(v), p, err
+	}
+	v := uint(v0)
+	p, err := DecodeUint(data, &v)
+	return uint64(v), p, err
+}
+
+func vNormKind(kind int, v0 uint64) uint64 {
+	switch kind {
+	case 2:
+		return uint64(int64(int32(v0)))
+	case 3:
+		return uint64(uint32(v0))
+	}
+	return v0
+}
+
+func vH_C12_int(data []byte, kind int) {
+	v0 := uint64(vNondetInt("v0"))
+	got, p, err := vDecodeIntKind(kind, data, v0)
+	rv, rp, rerr := vReadIntKind(kind, data)
+	ws := vSkipWS(data, 0)
+	isNull := vRefLiteral(data, ws, "null")
+	vReach("C12.int-compared")
+	if rerr == nil {
+		vAssert(err == nil && p == rp, "C12.int-as-reader")
+		vAssert(got == rv, "C12.int-stored")
+	} else if isNull {
+		vReach("C12.int-null")
+		vAssert(err == nil && p == ws+4, "C12.int-null-offset")
+		vAssert(got == vNormKind(kind, v0), "C12.int-null-untouched")
+	} else {
+		vAssert(err != nil, "C12.int-error")
+		vAssert(got == vNormKind(kind, v0), "C12.int-error-untouched")
+	}
+}
+
+func vH_C12_bool(data []byte) {
+	v0 := vNondetBool("v0")
+	v := v0
+	p, err := DecodeBool(data, &v)
+	rv, rp, rerr := ReadBool(data)
+	ws := vSkipWS(data, 0)
+	isNull := vRefLiteral(data, ws, "null")
+	vReach("C12.bool-compared")
+	if rerr == nil {
+		vAssert(err == nil && p == rp && v == rv, "C12.bool-as-reader")
+	} else if isNull {
+		vAssert(err == nil && p == ws+4 && v == v0, "C12.bool-null")
+	} else {
+		vAssert(err != nil && v == v0, "C12.bool-error")
+	}
+}
+
+func vH_C12_string(data []byte, withBuf bool) {
+	// prior target content: a string of nondeterministic length 0..2 and content
+	var v0b [2]byte
+	v0b[0] = vNondetByte("v0a")
+	v0b[1] = vNondetByte("v0b")
+	l := 2
+	if vNondetBool("short") {
+		l = 0
+	}
+	v0 := string(v0b[:l])
+	v := v0
+	var bufp *[]byte
+	if withBuf {
+		b := make([]byte, 1, 3)
+		b[0] = vNondetByte("dirty")
+		bufp = &b
+	}
+	p, err := DecodeString(data, &v, bufp)
+	want, rend, rok := vRefReadString(data, nil)
+	ws := vSkipWS(data, 0)
+	isNull := vRefLiteral(data, ws, "null")
+	vReach("C12.string-compared")
+	if rok {
+		vAssert(err == nil && p == rend, "C12.string-as-reader")
+		vAssert(v == string(want), "C12.string-stored")
+	} else if isNull {
+		vAssert(err == nil && p == ws+4, "C12.string-null-offset")
+		vAssert(v == v0, "C12.string-null-untouched")
+	} else {
+		vAssert(err != nil, "C12.string-error")
+		vAssert(v == v0, "C12.string-error-untouched")
+	}
+}
+
+// ---- C06 ---------------------------------------------------------------
+func vBytesEq(a, b []byte) bool {
+	if len(a) != len(b) {
+		return false
+	}
+	for i := 0; i < len(a); i++ {
+		if a[i] != b[i] {
+			return false
+		}
+	}
+	return true
+}
+
+// dst: prefix of length pre (arbitrary content) and spare capacity spare.
+func vMakeDst(pre, spare int) []byte {
+	dst := make([]byte, pre, pre+spare)
+	for i := 0; i < pre; i++ {
+		dst[i] = vNondetByte("pre")
+	}
+	return dst
+}
+
+func vH_C06_bytes(data []byte, pre, spare int) {
+	dst := vMakeDst(pre, spare)
+	var keep [4]byte
+	for i := 0; i < pre && i < 4; i++ {
+		keep[i] = dst[i]
+	}
+	out, p, err := ReadStringBytes(data, dst)
+	want, rend, rok := vRefReadString(data, nil)
+	vReach("C06.bytes-compared")
+	vAssert((err == nil) == rok, "C06.bytes-success")
+	if rok && err == nil {
+		vReach("C06.bytes-ok")
+		vAssert(p == rend, "C06.bytes-offset")
+		vAssert(len(out) == pre+len(want), "C06.bytes-length")
+		if len(out) == pre+len(want) {
+			vAssert(vBytesEq(out[:pre], keep[:pre]), "C06.bytes-prefix-kept")
+			vAssert(vBytesEq(out[pre:], want), "C06.bytes-content")
+		}
+	}
+}
+
+func vH_C06_string(data []byte, withBuf bool) {
+	var bufp *[]byte
+	if withBuf {
+		b := make([]byte, 2, 5)
+		b[0] = vNondetByte("dirty")
+		b[1] = vNondetByte("dirty")
+		bufp = &b
+	}
+	s, p, err := ReadString(data, bufp)
+	want, rend, rok := vRefReadString(data, nil)
+	vReach("C06.string-compared")
+	vAssert((err == nil) == rok, "C06.string-success")
+	if rok && err == nil {
+		vAssert(p == rend, "C06.string-offset")
+		vAssert(s == string(want), "C06.string-content")
+	}
+}
+
+// the bytes between the quotes of a well-formed token, unescaped on their own
+func vH_C06_unescape(data []byte, pre, spare int) {
+	want, rend, rok := vRefReadString(data, nil)
+	if !rok || data[0] != '"' {
+		return
+	}
+	vReach("C06.unescape-wellformed")
+	content := data[1 : rend-1]
+	dst := vMakeDst(pre, spare)
+	var keep [4]byte
+	for i := 0; i < pre && i < 4; i++ {
+		keep[i] = dst[i]
+	}
+	out, p, err := UnescapeStringContent(content, dst)
+	vAssert(err == nil, "C06.unescape-success")
+	if err == nil {
+		vAssert(p == len(content), "C06.unescape-consumes-all")
+		vAssert(len(out) == pre+len(want), "C06.unescape-length")
+		if len(out) == pre+len(want) {
+			vAssert(vBytesEq(out[:pre], keep[:pre]), "C06.unescape-prefix-kept")
+			vAssert(vBytesEq(out[pre:], want), "C06.unescape-content")
+		}
+	}
+}
+
+// ---- C17 ---------------------------------------------------------------
+func vH_C17(data []byte, pre, spare int) {
+	want := vRefSanitizeUTF8(data, nil)
+	got := StdLibCompatibleString(string(data))
+	vReach("C17.compared")
+	vAssert(got == string(want), "C17.string")
+	dst := vMakeDst(pre, spare)
+	var keep [4]byte
+	for i := 0; i < pre && i < 4; i++ {
+		keep[i] = dst[i]
+	}
+	out := StdLibCompatibleStringBytes(data, dst)
+	vAssert(len(out) == pre+len(want), "C17.bytes-length")
+	if len(out) == pre+len(want) {
+		vAssert(vBytesEq(out[:pre], keep[:pre]), "C17.bytes-prefix-kept")
+		vAssert(vBytesEq(out[pre:], want), "C17.bytes-content")
+	}
+	// idempotence and identity on valid UTF-8 follow from agreement with the reference
+	// (the reference is the identity on well-formed input and its output is well-formed);
+	// checked here directly as well
+	again := StdLibCompatibleString(got)
+	vAssert(again == got, "C17.idempotent")
+}
